@@ -526,7 +526,7 @@ func alertKey(out []byte) string {
 }
 
 func Run(r *ev.Run) {
-	r.Rule("fault enumeration (E1): for each base hello (3 AEADs x compression on/off x ECH extension first/middle/last) the catalogue: ech_outer_extensions in the outer hello at every position (well-formed, empty and malformed bodies); ECH type inner at every position; unknown ECH types; authentic payload with 5 non-matching/absent outer SNIs; inner without / with outer-type ECH extension; inner not offering TLS 1.3; every padding byte x every bit non-zero; reference list odd/short/long/empty/out-of-order (every adjacent swap)/repeated (every element)/absent (every element)/naming 0xfe0d,0xfd00 at every position/two markers; +-1 on every length field of outer and of encoded inner (re-sealed); record cut at every byte (then end of stream / a non-handshake record / a garbage continuation); non-handshake first record; every sealed-spec entry of the catalogue (outer SNI, inner ECH extension, TLS 1.3, padding, reference-list faults, malformed inner extensions) ALSO applied to the hello that follows a HelloRetryRequest (history: valid first hello, backend HRR, faulty second hello sealed at sequence number 1; Conn.Read is the call that meets it; also with the first bytes of the backend's next record already handed to Write when the faulty hello arrives, and with the faulty second hello framed in two records whose first carries 1..4 or 40 bytes of the message); plus all pairs of single faults that compose (multi-fault). distinct = distinct (stream, keys?) inputs")
+	r.Rule("fault enumeration (E1): for each base hello (3 AEADs x compression on/off x ECH extension first/middle/last) the catalogue: ech_outer_extensions in the outer hello at every position (well-formed, empty and malformed bodies); ECH type inner at every position; unknown ECH types; authentic payload with 5 non-matching/absent outer SNIs; inner without / with outer-type ECH extension; inner not offering TLS 1.3; every padding byte x every bit non-zero; reference list odd/short/long/empty/out-of-order (every adjacent swap)/repeated (every element)/absent (every element)/naming 0xfe0d,0xfd00 at every position/two markers; +-1 on every length field of outer and of encoded inner (re-sealed); record cut at every byte (then end of stream / a non-handshake record / a garbage continuation); non-handshake first record; one representative of every kind also with a client transport whose writes fail / are short (the transport is closed all the same); every sealed-spec entry of the catalogue (outer SNI, inner ECH extension, TLS 1.3, padding, reference-list faults, malformed inner extensions) ALSO applied to the hello that follows a HelloRetryRequest (history: valid first hello, backend HRR, faulty second hello sealed at sequence number 1; Conn.Read is the call that meets it; also with the first bytes of the backend's next record already handed to Write when the faulty hello arrives, and with the faulty second hello framed in two records whose first carries 1..4 or 40 bytes of the message); plus all pairs of single faults that compose (multi-fault). distinct = distinct (stream, keys?) inputs")
 	r.Assume("reference sender validated against crypto/tls", "admissible error classes per fault are taken from the property statement and draft §5.1/§7/§7.1; for +-1 length mutations that leave a well-formed hello, transparent handling is admissible")
 	key := echx.NewKey("c04", 42, echx.AllSuites, pubName)
 	if err := c03.SelfValidate(echx.NewKey("c03", 7, echx.AllSuites, "public.example")); err != nil {
@@ -570,6 +570,36 @@ func Run(r *ev.Run) {
 		kinds[f.Name] = true
 	}
 	r.Set("fault_kinds", len(kinds))
+	// "followed by end of stream" holds even when the alert itself cannot be written (client gone, short write): one representative
+	// of every first-hello fault kind with a failing client transport - the error class is unchanged and the transport is closed
+	{
+		seen := map[string]bool{}
+		for _, f := range all {
+			if seen[f.Name] || f.retryFirst != nil || f.mayBeValid {
+				continue
+			}
+			seen[f.Name] = true
+			var keys []ech.Key
+			if !f.noKeys {
+				keys = echx.Keys(key)
+			}
+			for _, wf := range []string{"error", "short"} {
+				res := echx.FeedOpt(f.stream, keys, wf)
+				replay := map[string]any{"fault": f, "stream": echx.Hex(f.stream), "client_transport_write": wf}
+				switch {
+				case res.Panic != nil:
+					r.Violation("panic:"+f.Name+":write-"+wf, fmt.Sprint(res.Panic), replay)
+				case res.Err == nil:
+					r.Violation("forwarded:"+f.Name+":write-"+wf, "illegal hello not aborted", replay)
+				case !slices.Contains(f.Allow, echx.ErrClass(res.Err)):
+					r.Violation("wrong-class:"+f.Name+":write-"+wf, fmt.Sprintf("error class %s (%v) when the alert cannot be written, admissible %v", echx.ErrClass(res.Err), res.Err, f.Allow), replay)
+				case res.Closed == 0:
+					r.Violation("no-close-when-alert-write-fails", fmt.Sprintf("the alert could not be written (%s) and the transport was NOT closed: the rejected connection stays open (fault %s)", wf, f.Name), replay)
+				}
+				r.Eval(string(f.stream)+"wf"+wf, f.Name+" -> abort with failing alert write, closed")
+			}
+		}
+	}
 	enum.ParallelFor(len(all), func(i int) {
 		evalFault(r, key, all[i])
 		if i%(len(all)/5+1) == 7 {
